@@ -209,6 +209,23 @@ class Prov:
             self._value_refs = refs
         return self._value_refs
 
+    def registered_in(self, table):
+        """Module-level functions decorated with a repo function whose body mentions the module-level name `table`."""
+        idx = self.__dict__.setdefault('_registries', None)
+        if idx is None:
+            idx = {}
+            for name, fn in self.facts.funcs.items():
+                for d in fn.decorator_list:
+                    dn = dotted(d.func) if isinstance(d, ast.Call) else dotted(d)
+                    deco = self.facts.funcs.get(dn)
+                    if deco is None:
+                        continue
+                    for m in ast.walk(deco):
+                        if isinstance(m, ast.Name) and m.id in self.facts.assign_nodes:
+                            idx.setdefault(m.id, []).append(name)
+            self._registries = idx
+        return idx.get(table, [])
+
     def reach(self, entry, dynamic=True):
         """Functions reachable from `entry`: call edges, nested closures, and functions referenced as values; with `dynamic`, a
         method call on an object of unknown class may reach every repo method of that name (over-approximation)."""
@@ -247,6 +264,8 @@ class Prov:
                             for m in ast.walk(node):
                                 if isinstance(m, ast.Name) and m.id in self.facts.funcs:
                                     todo.append(m.id)
+                        # a registry filled by a decorator (`@register` appending the function to this table)
+                        todo.extend(self.registered_in(n.id))
             for cand, par in self.cg.parent.items():
                 if par == q:
                     todo.append(cand)
@@ -464,6 +483,55 @@ class Prov:
                             and n.func.attr in ('update', 'pop', 'setdefault', 'clear', 'popitem'):
                         return None
                 return self.dict_entries(defs[0][1], qual, depth + 1)
+        return None
+
+    def rebuild_overrides(self, node, qual, depth=0):
+        """For `<fields>.values()` (or <fields> itself) where <fields> is the attribute dict of an existing object - vars(obj), a copy
+        of it, `{**vars(obj), 'k': v}`, followed by `fields['k'] = v` stores - : {replaced constant key: value node}; None when the
+        expression is not such a dict.  (Replacements under computed keys are register / immediate fields: rebuild invariant of C01.)"""
+        if qual is None or depth > 10:
+            return None
+        if isinstance(node, ast.Call) and isinstance(node.func, ast.Attribute) and node.func.attr == 'values' and not node.args:
+            return self.rebuild_overrides(node.func.value, qual, depth + 1)
+        if isinstance(node, ast.Call) and (dotted(node.func) == 'vars' or (dotted(node.func) in ('copy.deepcopy', 'copy.copy', 'dict') and len(node.args) == 1
+                                                                             and not node.keywords and self.rebuild_overrides(node.args[0], qual, depth + 1) == {})):
+            return {}
+        if isinstance(node, ast.Attribute) and node.attr == '__dict__':
+            return {}
+        if isinstance(node, ast.Dict):
+            out, based = {}, False
+            for k, v in zip(node.keys, node.values):
+                if k is None:
+                    inner = self.rebuild_overrides(v, qual, depth + 1)
+                    if inner is None:
+                        inner = self.dict_entries(v, qual)      # `**{'k': v}` / a local holding such a literal
+                        if inner is None:
+                            return None
+                    else:
+                        based = True
+                    out.update(inner)
+                elif isinstance(k, ast.Constant) and isinstance(k.value, str):
+                    out[k.value] = v
+                else:
+                    return None
+            return out if based else None
+        if isinstance(node, ast.Name):
+            defs = self.reaching(qual, node)
+            if not defs or any(h[0] != 'expr' for h, _ in defs):
+                return None
+            out = {}
+            for _, v in defs:
+                inner = self.rebuild_overrides(v, qual, depth + 1)
+                if inner is None:
+                    return None
+                out.update(inner)
+            for n in walk_fn(self.fn_of(qual)):
+                if isinstance(n, ast.Assign):
+                    for t in n.targets:
+                        if isinstance(t, ast.Subscript) and isinstance(t.value, ast.Name) and t.value.id == node.id \
+                                and isinstance(t.slice, ast.Constant) and isinstance(t.slice.value, str):
+                            out[t.slice.value] = n.value
+            return out
         return None
 
     def bind_call(self, callee, call, caller=None):
@@ -689,6 +757,14 @@ class Prov:
                 bound = self.bind_call(qual, call, cq)
                 if name in bound:
                     for arg in bound[name]:
+                        ov = self.rebuild_overrides(arg, cq)
+                        if ov is not None and '.' in qual and qual.split('.')[0] in self.facts.classes:
+                            # Cls(*fields.values()) with fields = the attribute dict of an existing object, some keys replaced:
+                            # this parameter receives the object's own attribute (nothing new) unless its attribute was replaced
+                            for attr, src in self.facts.full_attr_order(qual.split('.')[0]):
+                                if src == name and attr in ov:
+                                    out |= self._kinds(ov[attr], cq)
+                            continue
                         out |= self._kinds(arg, cq)
                 else:
                     d = self.default_of(fn, name)
